@@ -5,7 +5,7 @@ import ast
 
 from ..model import ENFA, NFA, DFA, EPS_TAG
 from .common import site_of
-from .flow import (code_nodes, helpers_of, own, both_answers, Oblig, calls, events, receivers, START, FINAL, STATES, SYMBOLS, DELTA_SYM, DELTA_EPS, SELF, P,
+from .flow import (code_nodes, helpers_of, events as _events_unused, own, both_answers, Oblig, calls, events, receivers, START, FINAL, STATES, SYMBOLS, DELTA_SYM, DELTA_EPS, SELF, P,
                    result_locs, deps_of, arg_deps, is_worklist_closure, comp)
 
 EXPLANATION = (
@@ -38,8 +38,9 @@ def run(eng, rep, tier):
                   "is_empty can only answer %s" % sorted(consts), summ, site=site_of(prog, fi, fi.node))
         fin_ret = [ev for ev in summ.events if ev.kind == "ret" and ev.value is not None and ev.value.has_const()
                    and ev.value.const is False]
+        set_form = _set_level_emptiness(eng, summ, recv_q)
         ob.decide("R1", "C04.1", fi, "non-empty-iff-final-reached:" + label,
-                  bool(fin_ret) and all(FINAL() in ev.ctrl for ev in fin_ret),
+                  (bool(fin_ret) and all(FINAL() in ev.ctrl for ev in fin_ret)) or set_form is not None,
                   "`non-empty` is answered under a test on FINAL", "is_empty answers False without testing FINAL", summ,
                   site=site_of(prog, fi, fi.node))
     fi = prog.method("EpsilonNFA", "is_empty")
@@ -53,7 +54,8 @@ def run(eng, rep, tier):
                         and DELTA_SYM() in arg_deps(ev, 0)),
                        ("epsilon-successors", lambda ev: may_be_element_of(ev.args[0] if ev.args else None, TRANS)
                         and DELTA_EPS() in arg_deps(ev, 0))):
-        ob.decide("R1", "C04.1", fi, "finality-tested-on-" + role, any(pred(ev) for ev in tests),
+        ob.decide("R1", "C04.1", fi, "finality-tested-on-" + role,
+                  any(pred(ev) for ev in tests) or _set_level_emptiness(eng, summ, ENFA) is not None,
                   "the finality test is applied to the " + role,
                   "is_empty never tests the %s for finality (an accepted word ending there is missed)" % role, summ,
                   site=(tests[0].site.to_json() if tests else site_of(prog, fi, fi.node)))
@@ -145,10 +147,16 @@ def run(eng, rep, tier):
     bound_ok = False
     fnodes = code_nodes(prog, fi)       # the exploration loop may live in a private worker
     for lp in [x for fnode in fnodes for x in ast.walk(fnode) if isinstance(x, ast.While)]:
-        for st_ in lp.body:
-            if isinstance(st_, ast.If) and "max_length" in ast.unparse(st_.test) and st_.body and \
-                    isinstance(st_.body[-1], (ast.Continue, ast.Break, ast.Return)):
-                bound_ok = True
+        for st_ in ast.walk(lp):
+            # anywhere in the exploration loop (per popped path or per successor): a test on the bound that either cuts
+            # (continue / break / return) or is the condition under which successors are pushed
+            if isinstance(st_, ast.If) and any(isinstance(x, ast.Name) and x.id == "max_length" for x in ast.walk(st_.test)) \
+                    and st_.body:
+                cuts = isinstance(st_.body[-1], (ast.Continue, ast.Break, ast.Return))
+                pushes = any(isinstance(c, ast.Call) and isinstance(c.func, ast.Attribute) and
+                             c.func.attr in ("append", "appendleft", "extend", "put", "add") for b in st_.body for c in ast.walk(b))
+                if cuts or pushes:
+                    bound_ok = True
     ob.decide("R1", "C04.4", fi, "length-bound-guards-expansion", bound_ok,
               "inside the exploration loop the length bound cuts the expansion of a path",
               "the length bound does not guard the expansion of paths inside the exploration loop", None,
@@ -161,6 +169,34 @@ def run(eng, rep, tier):
               "a word can be yielded without passing the duplicate test", None, site=site_of(prog, fi, fi.node))
     rep.stats.update(eng.stats())
     rep.floor = 30
+
+
+def _set_level_emptiness(eng, summ, recv_q):
+    """is_empty written on sets: the answer is `R.isdisjoint(FINAL)` / `not (R & FINAL)` where R is what a visited-set
+    worklist (the function itself or a private helper) reaches from START over symbol and epsilon edges.  Returns the
+    deciding event or None."""
+    from ..model import ENFA as _ENFA
+    for ev in own(summ):
+        if ev.kind != "bcall" or ev.callee not in ("isdisjoint", "intersection", "__and__", "issuperset", "issubset"):
+            continue
+        sides = [ev.recv] + list(ev.args[:1])
+        if len(sides) != 2 or any(x is None for x in sides):
+            continue
+        fin = [x for x in sides if FINAL() in x.alias]
+        oth = [x for x in sides if FINAL() not in x.alias]
+        if len(fin) != 1 or len(oth) != 1:
+            continue
+        rd = deps_of(oth[0])
+        need = {START(), DELTA_SYM()} | ({DELTA_EPS()} if recv_q == _ENFA else set())
+        if not need <= rd:
+            continue
+        # R comes out of a closure: a call (own frames) of a function that is a visited-set worklist
+        for cev, _ in events(summ, "call", own=True):
+            if cev.result is not None and cev.result.alias & oth[0].alias and cev.sub is not None and cev.sub.func is not None:
+                ok, _why, _ = is_worklist_closure(cev.sub.func.node, helpers_of(eng.prog, cev.sub.func))
+                if ok and cev.args and START() in (cev.args[0].alias | deps_of(cev.args[0])):
+                    return ev
+    return None
 
 
 def _guard_exprs(fn, test, depth=3):
